@@ -253,6 +253,18 @@ class _Session:
                 init_handlers[s] = signal.getsignal(s)
             cols, rows = cfg["size"]
             tty = self.tty = W.SimTTY(w, "tty", cols, rows, variant=cfg.get("termios", 0))
+            # which SIGWINCH the application has caught up with: it has asked the tty for its size after the last
+            # one AND redrawn after asking (the raw display consumes its resize flag before it lets the resize settle
+            # for resize_wait, so the flag alone does not tell)
+            self.winch_count = 0
+            self.size_query_at = 0
+            self.rendered_since_query = True
+
+            def on_query():
+                self.size_query_at = self.winch_count
+                self.rendered_since_query = False
+
+            tty.on_winsz_query = on_query
             term = self.term = RefTerm(cols, rows)
             out = W.SimTTYOut(w, tty, term)
             out.bufsize = int(cfg.get("outbuf", 0))
@@ -277,6 +289,14 @@ class _Session:
                 return orig_clear()
 
             screen.clear = clear
+            real_draw = screen.draw_screen
+
+            def draw_screen(size, canvas):
+                rv = real_draw(size, canvas)
+                self.rendered_since_query = True  # a frame was handed to the display after the last size query
+                return rv
+
+            screen.draw_screen = draw_screen
 
             top = self.build_widget()
 
@@ -342,6 +362,7 @@ class _Session:
                     def winch(c=evn["cols"], r=evn["rows"]):
                         tty.cols, tty.rows = c, r
                         term.resize(c, r)
+                        self.winch_count += 1
                         res.fault("sigwinch")
                         h = signal.getsignal(signal.SIGWINCH)
                         if callable(h):
@@ -415,6 +436,37 @@ class _Session:
             self.check_restored(init_handlers)
             if self.fault is None:
                 self.check_order()
+            ended_by_base_exception = self.injected is not None and isinstance(self.injected[0], KeyboardInterrupt)
+            if cfg.get("rerun") and cfg["loop"] != "twisted" and outcome[0] in ("returned", "raised") and not res.violations and not ended_by_base_exception:
+                # (not after a KeyboardInterrupt: it leaves the third-party loops where it struck, e.g. asyncio keeps the
+                # handles it had already queued for that iteration, and what a later run() does with them is theirs)
+                # The application runs the same MainLoop a second time (a Twisted reactor cannot restart): the screen
+                # is started again, one more key arrives, the session quits, and everything must be restored again -
+                # whatever ended the first run.
+                res.probe("second_run_of_the_same_mainloop")
+                w.log.add("rerun", [])
+                self.injected, self.second, self.quit_raised, self.fault = None, None, False, None
+                self.calls = []
+                t_now = w.rel()
+                w.schedule(t_now + 0.125, "tty<a (second run)", lambda: tty.feed(b"a"))
+                w.schedule(t_now + 0.625, "tty<quit (second run)", lambda: tty.feed(b"\x1b[19~"))
+                outcome2 = None
+                self.in_run = True
+                try:
+                    ml.run()
+                    outcome2 = ("returned", None)
+                except Quiescent:
+                    outcome2 = ("quiescent", None)
+                except Livelock as e:
+                    outcome2 = ("livelock", e)
+                except Exception as e:  # noqa: BLE001
+                    outcome2 = ("raised", e)
+                finally:
+                    self.in_run = False
+                w.log.add("end2", [outcome2[0], type(outcome2[1]).__name__ if outcome2[1] is not None else ""])
+                self.check_outcome(outcome2)
+                self.check_restored(init_handlers)
+                # (what the key decodes to is not judged: an escape sequence left incomplete by the first run is still pending)
             res.sim_time += w.rel()
             for k, v in w.faults.items():
                 res.fault(k, v)
@@ -467,7 +519,7 @@ class _Session:
         scr, ml, tty, term = self.screen, self.ml, self.tty, self.term
         if not scr.started:
             return
-        if scr._resized or ml.screen_size is None or tuple(ml.screen_size) != (tty.cols, tty.rows):  # noqa: SLF001
+        if scr._resized or ml.screen_size is None or tuple(ml.screen_size) != (tty.cols, tty.rows) or self.size_query_at != self.winch_count or not self.rendered_since_query:  # noqa: SLF001
             self.res.probe("block_with_resize_pending")
             return
         if (term.cols, term.rows) != (tty.cols, tty.rows):
@@ -706,7 +758,7 @@ class SessionEngine(Engine):
         "real": ["MainLoop", "_posix_raw_display.Screen", "six event loops", "widgets (Frame/ListBox/Edit/Button/...)", "PopUpTarget"],
         "stub": ["tty + termios list", "resize socket pair", "os.pipe for watch_pipe", "selectors/poller/asyncio step/trio fd wait", "clock", "terminal (RefTerm)"],
     }
-    required_probes = ("restoration_checked", "order_checked", "redraw_checked_at_wait", "block_with_resize_pending", "popup_opened", "input_routed_to_open_popup", "root_widget_replaced_from_handler", "input_after_root_swap_in_same_batch", "widget_returned_a_different_key")
+    required_probes = ("restoration_checked", "order_checked", "redraw_checked_at_wait", "block_with_resize_pending", "popup_opened", "input_routed_to_open_popup", "root_widget_replaced_from_handler", "input_after_root_swap_in_same_batch", "widget_returned_a_different_key", "second_run_of_the_same_mainloop")
     selftest_n = 240
     reducible = ("events",)
 
@@ -728,6 +780,7 @@ class SessionEngine(Engine):
             "items": [rng.choice(["edit", "text", "button", "check", "div", "popup"]) for _ in range(rng.randint(1, 5))],
             "extra_idle": rng.random() < 0.3,
             "outbuf": rng.choice([0, 0, 256, 1 << 16]),
+            "rerun": rng.random() < 0.25,
         }
         if rng.random() < 0.35:
             cfg["items"][0] = "popup"  # the launcher has the focus from the start
